@@ -12,14 +12,15 @@ import AsynqModel.Core.Syntax
   and `value` of harness/checks/c15.py); there is no theorem linking it to `Core.Seq` (only `Core.Syntax.Val` is imported).
 
   Programs are BATCH-FREE and TREE-SHAPED: every future that is yielded is created in the yield itself
-  (a child task, a ConstFuture, None, a non-future, a nested tuple/list/dict of those, an instance of a SUBCLASS of
-  tuple/list/dict, the result of an async_proxy function that returns a future / None / a container).  The same
+  (a child task, a ConstFuture, an ErrorFuture, a lazy Future, None, a non-future, a nested tuple/list/dict of those, an
+  instance of a SUBCLASS of tuple/list/dict, the result of an async_proxy function that returns a future / None / a container).  The same
   syntax is interpreted on the real library by harness/checks/c15.py.
 
-  The code as it is makes the two engines differ in three places, all modelled as they are (Theorems/C15.lean section B):
+  The code as it is makes the two engines differ in four places, all modelled as they are (Theorems/C15.lean section B):
   BaseException-only errors of awaited children (`except Exception` in convert_asynq_to_async), container subclasses
   (`isinstance` in resolve_awaitables vs `type(..) is` in unwrap / extract_futures), async_proxy functions returning a
-  non-future (`await fut` in unwrap_coroutine).
+  non-future (`await fut` in unwrap_coroutine), futures that are not ConstFutures - an ErrorFuture, a lazy `Future(provider)` -
+  (`Ys.ofut`: resolve_awaitables knows ConstFuture only and raises TypeError, `unwrap` calls `.value()`).
 
   Trusted / assumed (DESIGN.md 5.C15 L): the asyncio event loop (`await x` = run x to completion,
   `ensure_future` runs the coroutine in a COPY of the current contextvars context, `asyncio.wait(ALL_COMPLETED)`
@@ -118,6 +119,9 @@ inductive Ys where
                                --   (a namedtuple, an OrderedDict): `type(v) is tuple` vs `isinstance(x, tuple)`
   | pval (y : Ys)              -- pval_fn.asynq() of an @async_proxy() function that RETURNS the object y (None or a
                                --   tuple / list / dict of futures) instead of one future
+  | ofut (isErr : Bool) (n : Nat)
+                               -- a future made in the yield that is NOT a ConstFuture (asynq/futures.py):
+                               --   isErr: ErrorFuture(user error n);  otherwise Future(lambda: n), computed by `.value()`
 inductive YsL where
   | nil
   | cons (y : Ys) (l : YsL)
@@ -159,7 +163,7 @@ def isFin (t : Nat) : Ev → Bool
 /-- has the body of task t finished? -/
 def St.finished (s : St) (t : Nat) : Bool := s.log.any (isFin t)
 
-/-- The exception with which a plain synchronous call `c(args)` is refused while the flag is on:
+/-- The exception with which a plain synchronous call `c(args)` is refused while the flag is on - the same for every callee:
     AsyncDecorator.__call__ / AsyncAndSyncPairDecorator.__call__ `raise RuntimeError(_sync_call_in_asyncio_mode_message(self.fn))`
     (the message describes the function that `self.fn` finally wraps, so it can be built for a DeduplicateDecorator too) -/
 def refusal (_c : Call) : Err := .syncRefused
@@ -187,6 +191,7 @@ def Ys.labelsR : Ys → List Nat
   | .dict _ l => YsL.labelsR l
   | .sub _ => []
   | .pval y => Ys.labelsR y
+  | .ofut _ _ => []
 def YsL.labelsR : YsL → List Nat
   | .nil => []
   | .cons y l => Ys.labelsR y ++ YsL.labelsR l
@@ -206,6 +211,7 @@ def Ys.labelsA : Ys → List Nat
   | .dict _ l => YsL.labelsA l
   | .sub y => Ys.labelsA y
   | .pval _ => []
+  | .ofut _ _ => []
 def YsL.labelsA : YsL → List Nat
   | .nil => []
   | .cons y l => Ys.labelsA y ++ YsL.labelsA l
@@ -316,6 +322,8 @@ def ysR : Ys → St → Out × St
   | .sub _, s => (.err .typeerr, s)            -- `type(value) is tuple` ... all fail: the final `raise TypeError("Cannot unwrap ...")`;
                                                --   `extract_futures` skipped it too, so nothing inside it has run
   | .pval y, s => ysR y s                      -- AsyncProxyDecorator._call_pure: `return self.fn(...)` = the object itself is yielded
+  | .ofut isErr n, s =>                        -- `unwrap`: `isinstance(value, FutureBase)`: `value.value()` - an ErrorFuture raises
+    if isErr then (.err (.u n), s) else (.ok (.a n), s)   --   its error, a lazy Future calls its provider and returns the value
 def yslR : YsL → St → OutL × St
   | .nil, s => (.ok [], s)
   | .cons y l, s =>
@@ -428,6 +436,8 @@ def resolveA : Ys → St → Out × St
     -- TypeError("object ... can't be used in 'await' expression"); the coroutines inside fut are never awaited
     if s.mode then (.err .other, s)
     else resolveA y s                   -- flag off: `self.fn(...)` = the object itself
+  | .ofut isErr n, s =>                 -- `isinstance(x, (ConstFuture, ErrorFuture, Future)): return x.value()`
+    if isErr then (.err (.u n), s) else (.ok (.a n), s)
 /-- `_gather(awaitables)`: every awaitable becomes a task (`ensure_future`: runs in a COPY of the context, so what it
     does to the flag is invisible here), `asyncio.wait(ALL_COMPLETED)`, then `[task.result() for task in tasks]` -/
 def gatherA : YsL → St → OutL × St
@@ -477,6 +487,7 @@ def shapeOk : Ys → Val → Bool
   | .dict _ _, _ => false
   | .sub y, v => shapeOk y v
   | .pval y, v => shapeOk y v
+  | .ofut _ n, v => v == .a n
 def shapeOkL : YsL → List Val → Bool
   | .nil, [] => true
   | .cons y l, v :: vs => shapeOk y v && shapeOkL l vs
@@ -575,13 +586,6 @@ def syncRefusedOk : Ev → Bool
   | .sfn _ => false
   | _ => true
 
-/-- under asyncio a plain synchronous call FAILS - with the RuntimeError or (`refusal`) with the TypeError of building its
-    message - and no `sync_fn` has run: what holds of the code as it is for every program (`C15_asyncio_run_good`) -/
-def syncFailedOk : Ev → Bool
-  | .syncX _ o => o == .err .syncRefused || o == .err .other
-  | .sfn _ => false
-  | _ => true
-
 def syncAllowedOk : Ev → Bool
   | .syncX _ o => o != .err .syncRefused
   | _ => true
@@ -671,8 +675,9 @@ def specObs (ref : Out) (refC : List PEv) (ob : Obs) : Except String Unit :=
     if isEsc ob.out then .error "result-escapes" else
     if ob.log.any isSyncX then
       -- the run attempted a synchronous call and was refused: from there on it legitimately differs from fn(args), and WHERE
-      -- "there" is relative to the events of other tasks is the event loop's business; what remains is that the outcome is
-      -- the one the root task ended with
+      -- "there" is relative to the events of other tasks is the event loop's business; what remains HERE is that the outcome
+      -- is the one the root task ended with - every event of such a run is judged by the program-aware clause
+      -- `sync-run-deliveries` of `specObsP` below (exact comparison with the model's run)
       if !rootOk ob then .error "root-outcome" else .ok ()
     else
       -- same value / same exception as fn(args) ...
@@ -780,33 +785,14 @@ def YsL.noRaiseB : YsL → Bool
   | .cons y l => Ys.noRaiseB y && YsL.noRaiseB l
 end
 
-mutual
-/-- no plain synchronous call of a @deduplicate() function: the side condition of the statements about HOW a synchronous call
-    is refused (`C15_sync_refused_with_RuntimeError_partial`, `C15_spec_holds_partial`) -/
-def Prog.noDedupSync : Prog → Bool
-  | .yld _ y k h => Ys.noDedupSync y && Prog.noDedupSync k && Prog.noDedupSync h
-  | .sync c child k h => !(c.kind == .dedup) && Prog.noDedupSync child && Prog.noDedupSync k && Prog.noDedupSync h
-  | _ => true
-def Ys.noDedupSync : Ys → Bool
-  | .task _ p => Prog.noDedupSync p
-  | .tup l => YsL.noDedupSync l
-  | .lst l => YsL.noDedupSync l
-  | .dict _ l => YsL.noDedupSync l
-  | .sub y => Ys.noDedupSync y
-  | .pval y => Ys.noDedupSync y
-  | _ => true
-def YsL.noDedupSync : YsL → Bool
-  | .nil => true
-  | .cons y l => Ys.noDedupSync y && YsL.noDedupSync l
-end
-
 /-- the side condition of the `_partial` theorems about BaseException: no handler of the program catches BaseException, or
     the program raises no BaseException-only error -/
 def Prog.safe (p : Prog) : Bool := p.excOnly || p.noRaiseB
 
 mutual
-/-- every yielded container is a plain tuple / list / dict (no instance of a subclass: `.sub`) and every async_proxy function
-    returns one future (no `.pval`): the second side condition of the `_partial` theorems -/
+/-- every yielded container is a plain tuple / list / dict (no instance of a subclass: `.sub`), every async_proxy function
+    returns one future (no `.pval`) and every future made in a yield is a ConstFuture (no `.ofut`): the second side condition of
+    the `_partial` theorems -/
 def Prog.plainY : Prog → Bool
   | .yld _ y k h => Ys.plainY y && Prog.plainY k && Prog.plainY h
   | .sync _ child k h => Prog.plainY child && Prog.plainY k && Prog.plainY h
@@ -823,5 +809,110 @@ def YsL.plainY : YsL → Bool
   | .nil => true
   | .cons y l => Ys.plainY y && YsL.plainY l
 end
+
+/-! ## call sites the library gives a defined meaning to (harness: `valid_call`, `Gen.call_for`) -/
+
+/-- a declaration that exists: `asyncio_fn=` is a parameter of @asynq() / @async_proxy() (not of `pure=True`, not of
+    @deduplicate()); `sync_fn=` is a parameter of @asynq() on a function / method / non-generator -/
+def Call.valid (c : Call) : Bool :=
+  (!c.afn || c.kind == .gen || c.kind == .meth || c.kind == .proxy || c.kind == .plain) &&
+  (!c.sfn || c.kind == .gen || c.kind == .meth || c.kind == .plain)
+
+/-- the callee of a PLAIN SYNCHRONOUS call is an @asynq() function in the sense of the property: not `pure=True` (whose plain
+    call returns the task / - while the flag is on - an un-awaited coroutine: there is nothing synchronous to refuse) and, with
+    `Call.valid`, not an @async_proxy(sync_fn=..) pair (AsyncAndSyncPairProxyDecorator.__call__ runs sync_fn whatever the flag) -/
+def Call.validSync (c : Call) : Bool := c.valid && c.kind != .pure
+
+mutual
+/-- every call site of the program is one the harness sends (`valid_call`; synchronous callees: `Call.validSync`).  The model
+    gives the remaining `Call` terms a meaning too (a refusal), which the code does not have: the statements about refused
+    synchronous calls carry this hypothesis (necessity: DESIGN.md 5 C15 - shown on the real code, not in the model) -/
+def Prog.validCalls : Prog → Bool
+  | .yld _ y k h => Ys.validCalls y && Prog.validCalls k && Prog.validCalls h
+  | .sync c child k h => c.validSync && Prog.validCalls child && Prog.validCalls k && Prog.validCalls h
+  | _ => true
+def Ys.validCalls : Ys → Bool
+  | .task c p => c.valid && Prog.validCalls p
+  | .tup l => YsL.validCalls l
+  | .lst l => YsL.validCalls l
+  | .dict _ l => YsL.validCalls l
+  | .sub y => Ys.validCalls y
+  | .pval y => Ys.validCalls y
+  | _ => true
+def YsL.validCalls : YsL → Bool
+  | .nil => true
+  | .cons y l => Ys.validCalls y && YsL.validCalls l
+end
+
+/-! ## the program-aware part of the observer -/
+
+mutual
+/-- labels of the tasks an asyncio run may start below a body: every task of a yielded structure, at any depth, through
+    continuations and handlers - but NOT the callee of a plain synchronous call, nor anything inside that callee's body -/
+def Prog.live : Prog → List Nat
+  | .yld _ y k h => Ys.live y ++ (Prog.live k ++ Prog.live h)
+  | .sync _ _ k h => Prog.live k ++ Prog.live h
+  | _ => []
+def Ys.live : Ys → List Nat
+  | .task c p => c.label :: Prog.live p
+  | .tup l => YsL.live l
+  | .lst l => YsL.live l
+  | .dict _ l => YsL.live l
+  | .sub y => Ys.live y
+  | .pval y => Ys.live y
+  | _ => []
+def YsL.live : YsL → List Nat
+  | .nil => []
+  | .cons y l => Ys.live y ++ YsL.live l
+end
+
+def isAfn : Ev → Bool
+  | .afn _ => true
+  | _ => false
+
+/-- Clauses that need the PROGRAM (the case) beside the observations, for one asyncio run `ob`; `m` = the model's run of the
+    same program the same way:
+    * `refused-callee-ran`: every event belongs to the root or to a task of `Prog.live` - nothing of the callee of a (refused)
+      synchronous call is ever logged (theorem `C15_refused_callee_never_runs`);
+    * `asyncio-fn`: the explicit `asyncio_fn`s entered are those of the model's run, task by task (EXACT: holds of the model
+      by reflexivity; "with or without an explicit asyncio_fn" as a statement about OUTCOMES is in the equivalence theorems,
+      which quantify over `Call.afn` at every call site);
+    * `sync-run-deliveries`: a run that attempted a synchronous call legitimately differs from `fn(args)` from the refusal on,
+      so `specObs` cannot compare it with `fn(args)`; it is compared - per task, every event - with the model's run (EXACT:
+      holds of the model by reflexivity; what the model's run is like is stated by `C15_deliveries_agree_partial` (prefix of
+      `fn(args)` up to the first refusal), `C15_asyncio_run_good`, `C15_refused_callee_never_runs`, `C15_run_ends_with_outcome`). -/
+def specObsC (L : List Nat) (isAio : Bool) (co cm : List Ev) (same : Bool) : Except String Unit :=
+  if !isAio then .ok () else
+  if !co.all (fun e => L.contains e.label) then .error "refused-callee-ran" else
+  if co.filter isAfn != cm.filter isAfn then .error "asyncio-fn" else
+  if co.any isSyncX && !same then .error "sync-run-deliveries" else .ok ()
+
+/-- `L` = the labels of the root and of `Prog.live` (computed once per case) -/
+def specObsPL (L : List Nat) (m ob : Obs) : Except String Unit :=
+  specObsC L ob.conv.isAio (canonE ob.log) (canonE m.log) (sameView m ob)
+
+def specObsP (c : Call) (p : Prog) (m ob : Obs) : Except String Unit := specObsPL (c.label :: p.live) m ob
+
+def specListP (L : List Nat) : List Obs → List Obs → Except String Unit
+  | m :: ms, ob :: obs =>
+    match specObsPL L m ob with
+    | .ok () => specListP L ms obs
+    | .error e => .error e
+  | _, _ => .ok ()
+
+/-- the whole observer with the model's observations `ms` of the case handed in (the driver computes them once) -/
+def specClausePWith (ms : List Obs) (c : Call) (p : Prog) (obs : List Obs) : String :=
+  let r := specClause obs
+  if r != "ok" then r else
+  match specListP (c.label :: p.live) ms obs with
+  | .ok () => "ok"
+  | .error e => e
+
+/-- the whole observer of C15 on the observations `obs` of the case `(c, p)`: the observation-only clauses `specClause` first,
+    then the program-aware ones -/
+def specClauseP (c : Call) (p : Prog) (obs : List Obs) : String := specClausePWith (observe c p) c p obs
+
+/-- `Spec.C15` for a case -/
+def specP (c : Call) (p : Prog) (obs : List Obs) : Bool := specClauseP c p obs == "ok"
 
 end AsynqModel.Asyncio
